@@ -409,7 +409,7 @@ func init() {
 	})
 	// ---- time
 	R("time.Now", func(it *Interp, _ *ssa.Function, a []Value) Value {
-		it.abort("nondeterministic source reached: time.Now")
+		it.nondetSource("time.Now")
 		return nil
 	})
 	R("runtime.KeepAlive", nop)
